@@ -112,7 +112,8 @@ class CallbackSpec:
     def __str__(self):
         name = getattr(self.func, "__name__", self.func)
         if self.expected_value is False:
-            name = f"!{name}"
+            # an ``unless`` expression is negated as a whole, not only its first operand
+            name = f"!{name}" if str(name).isidentifier() else f"!({name})"
         return name
 
     def __eq__(self, other):
